@@ -43,6 +43,8 @@ type c07Obs struct {
 
 type c07Viol struct{ Key, Msg string }
 
+var errC07Collision = errors.New("both slots share one phantom")
+
 func c07V(key, format string, a ...any) *c07Viol { return &c07Viol{key, fmt.Sprintf(format, a...)} }
 
 // c07Observe collects the observations and reports anything observed that belongs to no expected
@@ -54,11 +56,15 @@ func c07Observe(e *c07Env, c c07Case, exp c07Expect, perr error) (c07Obs, *c07Vi
 	}
 	match := func(ip net.IP) int {
 		for i := range exp.Fam {
-			if exp.Fam[i].Phantom != nil && bytes.Equal(exp.Fam[i].Phantom.To16(), ip.To16()) && len(ip) > 0 && ip.To16() != nil {
-				return i
-			}
-			if exp.Fam[i].Phantom != nil && exp.Fam[i].Phantom.To16() == nil && bytes.Equal(exp.Fam[i].Phantom, ip) {
-				return i // malformed override (quirk domain): compared as raw bytes
+			ph := exp.Fam[i].Phantom
+			switch {
+			case ph == nil:
+			case ph.To16() != nil && ip.To16() != nil:
+				if ph.Equal(ip) {
+					return i
+				}
+			case ph.To16() == nil && bytes.Equal(ph, ip):
+				return i // registrar-assigned "address" of the wrong length (quirk domain): raw bytes
 			}
 		}
 		return -1
@@ -102,9 +108,10 @@ func c07Observe(e *c07Env, c c07Case, exp c07Expect, perr error) (c07Obs, *c07Vi
 	e.live.mu.Unlock()
 	o.ProbeLog = calls
 	for _, call := range calls {
-		host, port, err := net.SplitHostPort(call)
-		if err != nil {
-			host = call
+		// the recorder writes "<addr>:<port>" without brackets
+		host, port := call, ""
+		if k := strings.LastIndexByte(call, ':'); k >= 0 {
+			host, port = call[:k], call[k+1:]
 		}
 		i := match(net.ParseIP(host))
 		if i < 0 {
@@ -123,13 +130,13 @@ func c07CondString(f c07Fam) string {
 	var s []string
 	for _, cd := range f.Conds {
 		if !cd.OK {
-			s = append(s, "NOT "+cd.Name)
+			s = append(s, cd.Name)
 		}
 	}
 	if len(s) == 0 {
 		return "all conditions hold"
 	}
-	return strings.Join(s, ", ")
+	return "failed conditions: " + strings.Join(s, ", ")
 }
 
 // c07Oracle compares observations with the reference predicate.
@@ -138,7 +145,7 @@ func c07Oracle(c c07Case, exp c07Expect, o c07Obs) *c07Viol {
 	for i, f := range exp.Fam {
 		what := fmt.Sprintf("%s slot (phantom %v)", f.Slot, f.Phantom)
 		if (o.Usable[i] || o.NewAnns[i] > 0) && !f.Admit {
-			return c07V("admit:"+f.FirstFail, "%s: usable=%v announced=%d although %s", what, o.Usable[i], o.NewAnns[i], c07CondString(f))
+			return c07V("admit:"+f.FirstFail, "%s: usable=%v announced=%d in spite of %s", what, o.Usable[i], o.NewAnns[i], c07CondString(f))
 		}
 		if exp.WF && f.Admit && !o.Usable[i] {
 			return c07V("reject:all-conditions-hold", "%s: every admission condition holds (well-formed message) but no usable registration results; parse error=%q", what, o.ParseErr)
@@ -154,7 +161,7 @@ func c07Oracle(c c07Case, exp c07Expect, o c07Obs) *c07Viol {
 		}
 		// liveness probe only when one is required
 		if o.Probes[i] > 0 && f.ProbeNeed == 0 {
-			why := "condition-failed:" + f.FirstFail
+			why := f.FirstFail
 			switch {
 			case !f.PreProbe:
 			case !f.PhantomV4:
@@ -354,6 +361,12 @@ func c07Eval(e *c07Env, c c07Case) (c07Expect, c07Obs, *c07Viol, error) {
 	if err != nil {
 		return exp, c07Obs{}, nil, err
 	}
+	if a, b := exp.Fam[0].Phantom, exp.Fam[1].Phantom; a != nil && b != nil && a.To16() != nil && a.Equal(b) {
+		// quirk domain only: the registrar response carries an IPv4 address in its IPv6 field and
+		// it happens to be the IPv4 phantom as well, so both slots are one and the same
+		// registration. Nothing to attribute per family.
+		return exp, c07Obs{}, nil, errC07Collision
+	}
 	msg := c07Build(c.Msg)
 	_, perr := e.deliver(msg)
 	if errors.Is(perr, errC07Harness) {
@@ -456,6 +469,10 @@ func c07Classes(c c07Case, exp c07Expect, o c07Obs) []string {
 // c07Check evaluates a case and, if a family is admitted, every single-condition-falsified twin.
 func c07Check(t vh.Fataler, rec *vh.Rec, e *c07Env, c c07Case, twins bool) {
 	exp, o, v, err := c07Eval(e, c)
+	if errors.Is(err, errC07Collision) {
+		rec.Case(false, vh.Digest(c), nil, "skipped:both-slots-same-phantom")
+		return
+	}
 	if err != nil {
 		t.Fatalf("harness problem: %v", err)
 	}
@@ -475,6 +492,9 @@ func c07Check(t vh.Fataler, rec *vh.Rec, e *c07Env, c c07Case, twins bool) {
 			continue // base not admitted in reality (quirk domain): nothing to falsify
 		}
 		texp, to, tv, err := c07Eval(e, tw.Case)
+		if errors.Is(err, errC07Collision) {
+			continue
+		}
 		if err != nil {
 			t.Fatalf("harness problem (twin %s): %v", tw.Name, err)
 		}
